@@ -36,7 +36,7 @@ def _mu_constraints(rso, ez, pieces, d):
 
 
 def declare_ambiguity(rso, b, amb):
-    from .ro_build import set_constraints
+    from .ro_build import set_constraints, _set_args
     m, z, spec = b.m, b.z, b.spec
     d, ns = spec['d'], spec['S']
     labels = spec['labels']
@@ -44,13 +44,13 @@ def declare_ambiguity(rso, b, amb):
     b.ops += 1
     decl = amb.get('supp_decl', 'each')
     if decl == 'global':
-        fset.suppset(set_constraints(rso, z, amb['supp'][0]['pieces'], d))
+        fset.suppset(*_set_args(set_constraints(rso, z, amb['supp'][0]['pieces'], d), 'mixed'))
         b.ops += 1
     else:
         for s in range(ns):
             cs = set_constraints(rso, z, amb['supp'][s]['pieces'], d)
             if decl == 'each':
-                fset[labels[s]].suppset(cs)
+                fset[labels[s]].suppset(*_set_args(cs, ('list', 'mixed', 'lists', 'listbare')[(s + ns) % 4]))
             elif decl == 'iloc':
                 fset.iloc[s].suppset(*cs)
             elif decl == 'loc':
@@ -110,7 +110,14 @@ def _expr(b, piece):
     if ny:
         by = np.array(piece.get('by', [0.0] * ny), float)
         if by.any():
-            terms.append(by @ y if style != 'B' else (y * by).sum())
+            if isinstance(y, list):     # ny separate scalar decision variables
+                ys = [by[j] * y[j] for j in range(ny) if by[j]]
+                t = ys[0]
+                for u_ in ys[1:]:
+                    t = t + u_
+                terms.append(t)
+            else:
+                terms.append(by @ y if style != 'B' else (y * by).sum())
     if Az.any():
         if style == 'A':
             terms.append(z @ (Az @ x))
@@ -184,7 +191,26 @@ def build(rsome, spec):
     for blk in spec.get('xdecl', []):
         x.adapt([labels[s] for s in blk] if len(blk) > 1 else labels[blk[0]])
         b.ops += 1
-    if ny:
+    if ny and spec.get('ysplit'):
+        # ny separate scalar variables, each with its own event-wise and affine adaptation calls
+        b.y = y = []
+        mask = np.array(spec['mask'], int).reshape(ny, d)
+        for j in range(ny):
+            yj = m.dvar()
+            y.append(yj)
+            for blk in spec.get('ydecl', []):
+                yj.adapt([labels[s] for s in blk] if len(blk) > 1 else labels[blk[0]])
+                b.ops += 1
+            if mask[j].all() and spec.get('adapt_style') == 'whole':
+                yj.adapt(z)
+                b.ops += 1
+            else:
+                for i in range(d):
+                    if mask[j, i]:
+                        yj.adapt(z[i])
+                        b.ops += 1
+        b.ops += ny
+    elif ny:
         b.y = y = m.dvar(ny)
         b.ops += 1
         for blk in spec.get('ydecl', []):
@@ -258,14 +284,19 @@ def read_decisions(b):
     xs = _per_scen(b.x(), ns)
     dec = {'x': [xs[blk[0]].tolist() for blk in spec['xpart']]}
     if ny:
-        y0 = _per_scen(b.y(), ns)
+        def ycall(*a):
+            if isinstance(b.y, list):
+                parts = [_per_scen(yj(*a), ns) for yj in b.y]
+                return [np.concatenate([parts[j][s_] for j in range(ny)]) for s_ in range(ns)]
+            return _per_scen(b.y(*a), ns)
+        y0 = ycall()
         dec['y0'] = [y0[blk[0]].tolist() for blk in spec['ypart']]
         Y = np.zeros((len(spec['ypart']), ny, d))
         if np.array(spec['mask']).any():
             for i in range(d):
                 e = np.zeros(d)
                 e[i] = 1.0
-                yi = _per_scen(b.y(b.z.assign(e)), ns)
+                yi = ycall(b.z.assign(e))
                 for k, blk in enumerate(spec['ypart']):
                     Y[k, :, i] = yi[blk[0]] - y0[blk[0]]
         dec['Y'] = Y.tolist()
